@@ -486,6 +486,7 @@ def r_istep_bound(A, ctx, scope, rule="R-ISTEP-BOUND"):
         except Exception as e:  # noqa: BLE001
             err["cmp"] = repr(e)[:100]
         if k is None:
+            n += 1          # examined: whether the step is a multiple of the gradient at all is R-ISTEP's verdict
             ctx.note(f"{rule}: {cls.name}: step * curvature is not a constant multiple of the intercept "
                      f"gradient (curvature {show_rf(Lb)[:80]}): not decided here, R-ISTEP decides the direction")
             continue
